@@ -19,7 +19,9 @@ EXPLANATION = (
     'side and recurses into both sides, a functor pattern never matches an atom; R6.4 feature agreement loop fails '
     'exactly when neither side unifies with the other and records X := value only for variables; R6.5 the '
     'compatibility relations of the two feature classes).  The full success condition and the content of bindings '
-    'quantify over runtime values and are not decided.')
+    'quantify over runtime values and are not decided.'
+    ' The leaf numbering under a variable is accepted in three spellings (threaded index, shared counter, enumerate over a left-to-right generator); every leaf path is judged.'
+)
 TRUSTED = ['CPython ast', 'sa/pysym.py path walker', 'rule table DESIGN.md C06']
 
 UNI = ru.UNI
